@@ -1,21 +1,27 @@
 #!/bin/bash
-# False-alarm test for the checkers: builds a scratch worktree of /repo in which EVERY local
-# variable, parameter and named result is renamed (bin/renamelocals), checks that it still
-# builds, and runs every property's quick check against it. All must stay silent and match the
-# same known findings. Not a registered command (it needs a scratch copy under /tmp).
+# False-alarm test for the checkers. For each behaviour-preserving transformation
+#   rename   : every local variable, parameter and named result renamed
+#   swapeq   : operands of every == and != exchanged
+#   invertif : every `if c {A} else {B}` turned into `if !(c) {B} else {A}`
+# it builds a scratch worktree of /repo, applies the transformation to every non-test file of
+# the module (bin/renamelocals), checks that the tree still builds, and runs every property's
+# quick check against it. All must stay silent and match the same known findings.
+# Not a registered command (it needs scratch copies under /tmp, removed afterwards).
 set -u
 cd "$(dirname "$0")/.."
 export GOFLAGS=-mod=mod GOPROXY=off
 ./build.sh >/dev/null
 (cd sa && go build -o ../bin/renamelocals ./cmd/renamelocals) || exit 2
-WT=$(mktemp -d /tmp/wt-ren.XXXX); rmdir $WT
-git -C /repo worktree add --detach $WT HEAD >/dev/null 2>&1 || exit 2
-./bin/renamelocals $WT && (cd $WT && go build ./...) || { echo "renamed tree does not build"; git -C /repo worktree remove --force $WT; exit 2; }
 rc=0
-for id in $(./bin/pintsa -list); do
-  out=$(./bin/pintsa -prop $id -tier quick -repo $WT -out /dev/null -known known_findings.json -replay-dir /tmp 2>&1); e=$?
-  echo "$id exit=$e $(echo "$out" | grep -E "^$id quick")"
-  [ $e -ne 0 ] && { rc=1; echo "$out" | grep -E "report\[" | cut -c1-200; }
+for mode in rename swapeq invertif; do
+  WT=$(mktemp -d /tmp/wt-$mode.XXXX); rmdir $WT
+  git -C /repo worktree add --detach $WT HEAD >/dev/null 2>&1 || exit 2
+  ./bin/renamelocals -$mode $WT >/dev/null && (cd $WT && go build ./...) || { echo "$mode: transformed tree does not build"; git -C /repo worktree remove --force $WT; exit 2; }
+  for id in $(./bin/pintsa -list); do
+    out=$(./bin/pintsa -prop $id -tier quick -repo $WT -out /dev/null -known known_findings.json -replay-dir /tmp 2>&1); e=$?
+    echo "$mode $id exit=$e $(echo "$out" | grep -E "^$id quick")"
+    [ $e -ne 0 ] && { rc=1; echo "$out" | grep -E "report\[" | cut -c1-200; }
+  done
+  git -C /repo worktree remove --force $WT
 done
-git -C /repo worktree remove --force $WT
 exit $rc
